@@ -7,8 +7,10 @@ operation, between any two consecutive synchronisation operations, after the las
 adds every pair.  In the child the scheduler's copy marks the other threads as gone: "the child's
 only thread is disabled forever" is the deadlock verdict (no timing involved).
 """
-import os, re, time, threading
+import os, shutil, re, time, threading
 from engine import sched as S
+from engine import build
+from engine.common import CLEAN_ENV, VERIF, sh
 
 META = {
     'level': 'model_checking',
@@ -77,7 +79,8 @@ def judge(x, k, out, nthr=2, depth=1):
         if len(lines) != len(want) + nchild - 1:
             bad.append('record_count_%d_expected_%d' % (len(lines), len(want)))
         for l in lines:
-            if not re.match(r'^[^|]+\|[^|]+\|[12]\|root\|Q[^|]*Q$', l):
+            # third field: %{snoopy_threads} - between 1 and the number of threads that can be inside the library at once
+            if not re.match(r'^[^|]+\|[^|]+\|[1-%d]\|root\|Q[^|]*Q$' % max(2, nthr), l):
                 bad.append('garbled_record')
         if x.log and not x.log.endswith(b'\n'):
             bad.append('partial_last_record')
@@ -200,6 +203,28 @@ def run(ck):
                     bad.append('sanitizer')
                 if bad:
                     ck.violation('C10:%s:%s' % ('+'.join(bad), name), {'script': script, 'rc': r['rc'], 'lines': r['lines'][-6:], 'stderr': r['stderr'][-300:], 'sanitizer': r['san'][:1]})
+    # ---- the same family with a second thread parked inside the library (its log FIFO is full) while the forking thread's own atfork PREPARE handler -
+    # registered before the library's first call, so it runs after the library's - spawns a helper with vfork()+execv(): the vfork child has another
+    # pid but lives in the parent's memory; it must not do any child-side clean-up there.  Real shared library, preloaded.
+    so = build.build_libsnoopy_so('c10-so', san='plain')
+    vd = os.path.join(ck.workdir, 'vfh')
+    shutil.rmtree(vd, ignore_errors=True)
+    os.makedirs(vd)
+    rcc = sh(['gcc', '-O1', '-pthread', '-o', os.path.join(vd, 'vfh'), os.path.join(VERIF, 'native/h_vfh.c')])
+    if rcc.returncode:
+        raise RuntimeError('h_vfh build failed: ' + rcc.stderr.decode()[:300])
+    os.mkfifo(os.path.join(vd, 'fifo'))
+    for nm, target in (('snoopy.ini', 'fifo'), ('later.ini', 'log')):
+        open(os.path.join(vd, nm), 'w').write('[snoopy]\nmessage_format = "%%{tid_kernel} %%{cmdline}"\noutput = file:%s/%s\n' % (vd, target))
+    rv = sh([os.path.join(vd, 'vfh'), os.path.join(vd, 'fifo'), os.path.join(vd, 'snoopy.ini'), os.path.join(vd, 'later.ini')],
+            env=dict(CLEAN_ENV, LD_PRELOAD=so['so'], VERIF_SNOOPY_INI=os.path.join(vd, 'snoopy.ini')), timeout=120)
+    total += 1
+    outcomes.add(('vfork_in_prepare_handler', rv.returncode))
+    if rv.returncode == 2:
+        raise RuntimeError('h_vfh set-up problem: ' + rv.stderr.decode()[-300:])
+    if rv.returncode != 0:
+        ck.violation('C10:parent_thread_inside_the_library_%s:application_prepare_handler_vforks_and_execs_while_another_thread_is_inside_a_call' % ('killed_by_signal_%d' % -rv.returncode if rv.returncode < 0 else 'exit_%d' % rv.returncode),
+                     {'rc': rv.returncode, 'stdout': rv.stdout.decode()[-300:], 'stderr': rv.stderr.decode()[-300:]})
     ck.assumptions += ['fork points = scheduling points of the other thread (sync operations; function entries in the fn campaign)', 'sequentially consistent interleavings']
     ck.coverage(states=len(outcomes) + hashed_states[0], scheduler_states_in_hashed_passes=hashed_states[0], transitions=total, traces_validated_against_impl=total, evaluations=total, distinct_nontrivial=max(len(outcomes), len(fork_points)),
                 rule='all schedules within the preemption bound per campaign (output x child depth x calls); distinct = max(distinct (campaign, verdict, child status), distinct fork positions relative to the other thread)',
